@@ -137,8 +137,19 @@ impl<'c, Q: Queue> Interp<'c, Q> {
         self.force_drain = true;
     }
 
-    pub fn do_append(&mut self, pairs: &[Pair], swap_roles: bool) {
-        let rp = self.resolve_pairs(pairs);
+    pub fn do_append(&mut self, pairs: &[Pair], swap_roles: bool, mirror: bool, cap: u8) {
+        let mut rp = self.resolve_pairs(pairs);
+        if mirror {
+            // the other queue holds exactly the receiver's items, with priorities taken from the
+            // generated pairs (or shifted): equal lengths, every item clashes
+            let mine: Vec<Elem> = self.q.iter().map(|(k, p)| elem(k, p)).collect();
+            rp = mine
+                .iter()
+                .enumerate()
+                .map(|(i, e)| (e.0, e.1.wrapping_add(1), rp.get(i).map_or(e.2.wrapping_add(1), |x| x.2)))
+                .collect();
+            self.stats.hit("append_mirror");
+        }
         let mut mo = Model::new();
         for &(id, tag, p) in rp.iter() {
             if !mo.contains(id) {
@@ -147,6 +158,18 @@ impl<'c, Q: Queue> Interp<'c, Q> {
         }
         set_default_hb(self.case.hasher);
         let mut other = Q::from_vec(mk(&rp));
+        // capacity operations on the other queue are semantically invisible
+        match cap % 4 {
+            1 => other.reserve(cap as usize * 3),
+            2 => other.shrink_to_fit(),
+            3 => {
+                other.reserve_exact(2 * other.len() + cap as usize);
+            }
+            _ => {}
+        }
+        if cap != 0 {
+            self.stats.hit("append_other_capacity_op");
+        }
         let mut out = Vec::new();
         check_queue(&other, &mo, 0, true, self.cfg.tables, &mut out);
         self.fails.extend(out);
